@@ -15,10 +15,14 @@ SHARED-DEFAULT a mutable default argument (list / dict / set display, or dict/li
 STR-MEMBER     `<expr> in <string constant>` where the constant reads as one or more identifiers - what is left of a tuple
                whose comma was lost (`("return_type")`, `("self" "cls")`): a substring test, true for every fragment
                of the word(s).
+SLICE-WRAP     a slice bound `pos - k` (k > 0) on a position that can be smaller than k (a search answers 0 when the thing looked
+               for starts the text): the bound goes negative and counts from the end; needs a guard `pos > k-1` / `pos - k >= 0`
+               (`max(pos - k, 0)` is no BinOp bound and is fine).
 """
 import ast
 import re
 
+from sa.cfg import expr_guards, facts
 from sa.consteval import UNKNOWN, Folder
 from sa.model import AnalysisError, Finding, enclosing_fn, loc, order_key, src
 
@@ -214,7 +218,51 @@ def rule_pitfalls(prog, rep, tier, scope=None):
                     "lost" % (src(c, 60), val, val[:1], val[1:3]), loc(prog, c)))
             else:
                 rep.holds("STR-MEMBER", inst, loc(prog, c), "a character set")
-    rep.ob("PITFALL", "%d functions scanned for late-bound closures, stale captures, shared mutable defaults and substring membership" % len(fns), "holds", "",
+        # ---------------------------------------------------------------- SLICE-WRAP
+        for sub in ast.walk(f.node):
+            if not (isinstance(sub, ast.Subscript) and isinstance(sub.slice, ast.Slice)) or enclosing_fn(sub) is not f:
+                continue
+            for bound in (sub.slice.lower, sub.slice.upper):
+                if not (isinstance(bound, ast.BinOp) and isinstance(bound.op, ast.Sub) and isinstance(bound.right, ast.Constant) and isinstance(bound.right.value, int)
+                        and bound.right.value > 0 and isinstance(bound.left, ast.Name)):
+                    continue
+                idx, k = bound.left.id, bound.right.value
+                # only positions: a name bound from a search (`s.find(..)`, `.index(..)`, a package search that answers (start, end, ..)), a loop counter or a length
+                defs = [st for st in ast.walk(f.node) if isinstance(st, (ast.Assign, ast.For, ast.comprehension)) and any(
+                    isinstance(t, ast.Name) and t.id == idx for tt in (st.targets if isinstance(st, ast.Assign) else [st.target]) for t in ast.walk(tt))]
+                if not defs or idx in f.params():
+                    continue
+                n += 1
+                inst = "%s: %s" % (where, src(sub, 50))
+                ok = None
+                for t, pol in expr_guards(sub, stop=f.node):
+                    for atom, p_ in facts(t, pol):
+                        if not (isinstance(atom, ast.Compare) and len(atom.ops) == 1) or idx not in {x.id for x in ast.walk(atom) if isinstance(x, ast.Name)}:
+                            continue
+                        op, l, r = atom.ops[0], atom.left, atom.comparators[0]
+                        lo = None  # a lower bound on idx that the fact gives
+                        l_is = isinstance(l, ast.Name) and l.id == idx
+                        l_is_minus = isinstance(l, ast.BinOp) and isinstance(l.op, ast.Sub) and isinstance(l.left, ast.Name) and l.left.id == idx and isinstance(l.right, ast.Constant)
+                        if isinstance(r, ast.Constant) and isinstance(r.value, int) and (l_is or l_is_minus):
+                            shift = l.right.value if l_is_minus else 0
+                            if isinstance(op, ast.Gt) and p_:
+                                lo = r.value + 1 + shift
+                            elif isinstance(op, ast.GtE) and p_:
+                                lo = r.value + shift
+                            elif isinstance(op, ast.Lt) and not p_:
+                                lo = r.value + shift
+                            elif isinstance(op, ast.LtE) and not p_:
+                                lo = r.value + 1 + shift
+                        if lo is not None and lo >= k:
+                            ok = "guarded by %s" % src(atom, 30)
+                if ok:
+                    rep.holds("SLICE-WRAP", inst, loc(prog, sub), ok)
+                else:
+                    rep.violation(Finding(
+                        "SLICE-WRAP", where, "slice-bound-may-go-negative:%s-%d" % (idx, k),
+                        "the slice bound %s is negative when %s is %s - a position a search can answer (the thing looked for starts the text) - and a negative bound counts "
+                        "from the end: %s then keeps almost the whole text instead of nothing" % (src(bound, 30), idx, " or ".join(str(v) for v in range(k)), src(sub, 40)), loc(prog, sub)))
+    rep.ob("PITFALL", "%d functions scanned for late-bound closures, stale captures, shared mutable defaults, substring membership and slice bounds that wrap" % len(fns), "holds", "",
            "%d candidate(s) examined" % n)
     if scope is None and len(fns) < 100:
         raise AnalysisError("PITFALL: only %d functions scanned" % len(fns))
